@@ -17,6 +17,9 @@ use digest::{typenum::U32, FixedOutput, Output, OutputSizeUser, Update};
 use hbs_lms::{HashChain, HashChainData};
 use tinyvec::ArrayVec;
 
+#[cfg(all(verif_check, not(kani)))]
+pub use crate::kani;
+
 /// Stub for `zeroize::optimization_barrier` (an empty `asm!` block Kani cannot compile).
 pub fn noop_barrier<T: ?Sized>(_val: &T) {}
 
@@ -31,12 +34,14 @@ pub fn fast_default<T: Default, const N: usize>() -> [T; N] {
     unsafe { core::mem::zeroed() }
 }
 
-#[cfg(kani)]
+#[cfg(any(kani, verif_check))]
 #[inline(always)]
 pub fn any_digest() -> [u8; 32] {
+    #[cfg(not(kani))]
+    use crate::kani;
     kani::any()
 }
-#[cfg(not(kani))]
+#[cfg(not(any(kani, verif_check)))]
 #[inline(always)]
 pub fn any_digest() -> [u8; 32] {
     [0u8; 32]
@@ -515,8 +520,10 @@ pub fn rec_fp(parts: &[&[u8]]) -> [u8; 32] {
     toy_digest(parts)
 }
 
-#[cfg(kani)]
+#[cfg(any(kani, verif_check))]
 pub fn rec_reset_symbolic() {
+    #[cfg(not(kani))]
+    use crate::kani;
     unsafe {
         REC.nq = 0;
         REC.overflow = false;
@@ -524,8 +531,10 @@ pub fn rec_reset_symbolic() {
     }
 }
 
-#[cfg(kani)]
+#[cfg(any(kani, verif_check))]
 pub fn salt_symbolic() {
+    #[cfg(not(kani))]
+    use crate::kani;
     unsafe {
         SALT = kani::any();
     }
